@@ -22,7 +22,7 @@ def gen(ctx):
             for s in (1, -1):
                 ints.add(s * 10 ** k + d)
     ints |= {0, -2**63, 2**63 - 1}
-    for _ in range(20000 if big else 1500):
+    for _ in range(100000 if big else 1500):
         ints.add(rng.getrandbits(64) - 2**63)
     icases = [f"i {v}" for v in sorted(ints)]
     # literals around the range edges in four bases with signs, underscores, leading zeros
@@ -57,7 +57,7 @@ def gen(ctx):
                   "1.00000000000000011102230246251565404236316680908203125", "1.00000000000000011102230246251565404236316680908203124",
                   "1.00000000000000011102230246251565404236316680908203126", "5e-324", "3e-324", "1e23", "8.5e22", "6_0.0_1e+0_2"]:
             lits.append(sgn + t)
-    for _ in range(20000 if big else 2500):
+    for _ in range(100000 if big else 2500):
         mant = str(rng.getrandbits(rng.choice([8, 30, 53, 64, 80])))
         k = rng.randrange(len(mant) + 1)
         e = rng.choice([0, 1, -1, 22, -22, 300, -300, 308, -308, 309, -324, -330, rng.randrange(-340, 320)])
@@ -80,9 +80,9 @@ def gen(ctx):
     for v in [0.0, -0.0, 1.0, -1.0, 0.1, 1e15, 1e16, 1e17, 1e21, 1e22, 1e23, 1e100, 1e300, 1.7976931348623157e308, 5e-324, 2.2250738585072014e-308, 123456789.125, 0.5, 1e-7, 1e-5, 3.0e-10]:
         fb.add(struct.unpack("<Q", struct.pack("<d", v))[0])
         fb.add(struct.unpack("<Q", struct.pack("<d", -v))[0])
-    for _ in range(30000 if big else 2500):
+    for _ in range(150000 if big else 2500):
         fb.add(rng.getrandbits(64))
-    for _ in range(5000 if big else 500):
+    for _ in range(25000 if big else 500):
         ex = rng.randrange(-320, 309)
         fb.add(struct.unpack("<Q", struct.pack("<d", float(f"{rng.randrange(1, 10**17)}e{ex - 16}")))[0])
     gb = set()
@@ -90,7 +90,7 @@ def gen(ctx):
         for m in (0, 1, 2**22, 2**23 - 1):
             for sg in (0, 1):
                 gb.add((sg << 31) | (e << 23) | m)
-    for _ in range(10000 if big else 1200):
+    for _ in range(50000 if big else 1200):
         gb.add(rng.getrandbits(32))
     # serde widths
     sd = []
